@@ -22,6 +22,21 @@ CHECKS = {
         "note": _INFL_NOTE,
         "technique": "TLA+ spec + TLC exhaustive over memory settings; spec->code replay with exact probe bath; request-trace comparison",
     },
+    "C02": {
+        "text": "Influence.tla: TLC checks that the TEMPO row algorithm model and the PT-TEMPO column algorithm model yield the same documented influence set at every step and that an N-step column cover restricted to n rows is the n-step cover (ColPrefix). Both real methods are replayed on non-commuting permutation (clock) systems - constant and explicitly time-dependent, sampled and integrated - and every matrix element at every step must equal the spec's integer-exponent prediction, including compute_dynamics(num_steps=n) on a longer process tensor; the times handed to H(t) are validated against the per-step sampling pattern.",
+        "note": _INFL_NOTE + " Generic (non-permutation) Hamiltonians 'within truncation tolerance' are numerical and not covered.",
+        "technique": "TLA+ spec + TLC exhaustive; spec->code replay of both algorithms against one spec state; call-time trace validation of user H(t)",
+    },
+    "C05": {
+        "text": "Degeneracy.tla enumerates every eigenvalue tuple (repeated/zero included); for each and each V in {permutation, Fourier, real orthogonal, Haar} the real Bath must accept V diag(o) V^dagger and report a unitary U and real diagonal D with U D U^dagger = O. Influence.tla behaviours (whose expected state does not mention the basis) are replayed as (V H V^dagger, V O V^dagger, V rho V^dagger) through Tempo, PtTempo+compute_dynamics and MeanFieldTempo and rotated back.",
+        "note": _INFL_NOTE,
+        "technique": "TLA+ spec + TLC enumeration of spectra; spec->code replay under basis change",
+    },
+    "C06": {
+        "text": "Degeneracy.tla: TLC checks for every eigenvalue tuple in the bound that reduce-then-scatter of the influence tensors is the identity and that north/west partitions are the coarsest ones; the real Bath's degeneracy maps are compared with the spec's partitions; Influence.tla behaviours are replayed with unique False and True for all coincidence patterns through the three methods and both must equal the single spec state.",
+        "note": _INFL_NOTE,
+        "technique": "TLA+ spec + TLC exhaustive over coincidence patterns; spec->code replay with unique on/off",
+    },
 }
 for e in ENGINES:
     e["serves_properties"] = sorted(CHECKS)
